@@ -126,10 +126,16 @@ def valid_code_pairs(cell, Xp, Xm, lfp, lfm):
 class Poly:
     """p(x) = a0 + a.x + x^T B x, optionally vector valued (list of components)."""
 
-    def __init__(self, rng, d, deg):
+    def __init__(self, rng, d, deg, tensor_rows=None):
         self.a0 = rng.uniform(0.5, 1.5)
         self.a = rng.uniform(-1, 1, size=d)
         B = rng.uniform(-0.5, 0.5, size=(d, d)) if deg >= 2 else np.zeros((d, d))
+        if deg == 1 and tensor_rows is not None:
+            # degree-1 elements of tensor cells (Q1) also hold the products xi_i xi_j (i < j) of the cell's affine coordinates xi = A^-1 (x - x0):
+            # a field with such terms has a gradient that varies along the facet (both cells share the linear part A of their maps)
+            for i in range(d):
+                for j in range(i + 1, d):
+                    B = B + rng.uniform(0.4, 0.9) * np.outer(tensor_rows[i], tensor_rows[j])
         self.B = 0.5 * (B + B.T)
         if deg == 0:
             self.a = np.zeros(d)
@@ -343,13 +349,17 @@ def work(item):
         args = fo.arguments
         # polynomial stand-ins: per form argument / coefficient, per side, per component
         fields = {}
+        rows = None
+        if cell in ("quadrilateral", "hexahedron"):
+            ax = {"quadrilateral": (1, 2), "hexahedron": (1, 2, 4)}[cell]
+            rows = np.linalg.inv(np.array([G[plus[k]] - G[plus[0]] for k in ax]).T)
         for obj in list(fo.original_coefficients) + list(args):
             el = obj.ufl_function_space().ufl_element()
             deg = el.embedded_superdegree
             ncomp = el.block_size if type(el).__name__ == "_BlockedElement" else 1
             cont = not el.discontinuous
-            pp = [Poly(rng, d, deg) for _ in range(ncomp)]
-            pm = pp if cont else [Poly(rng, d, deg) for _ in range(ncomp)]
+            pp = [Poly(rng, d, deg, rows) for _ in range(ncomp)]
+            pm = pp if cont else [Poly(rng, d, deg, rows) for _ in range(ncomp)]
             fields[obj] = {"+": pp, "-": pm}
         # physical truth of the functional obtained by substituting the polynomials for all arguments
         integrand_sum = 0.0
